@@ -9,8 +9,8 @@ import random
 
 import networkx as nx
 
-from ..common import Result, sut, digest, BudgetStop
-from ..taps import RandomTap, installed
+from ..common import Result, sut, digest, BudgetStop, tight_stack_call
+from ..taps import RandomTap, installed, InjectedFault
 from ..graphs import MonitoredGraph, build_clean_network, check_clean
 from ..mcmc import SwapMonitor, installed_monitor, K1
 from . import c20
@@ -26,7 +26,7 @@ ASSUMPTIONS = ["inputs are clean by construction and re-checked before use (harn
                "rewire() is unwound by logical budgets (thorough: proposals <= 3000*limit + 200000 and a stall window of 100000 proposals without an accepted swap; quick: 60000 proposals, stall window 15000; draws <= 50x the proposal budget); everything observed up to a stop is checked, the run is recorded as stopped",
                "a shape failure is attributed to the known finding K1 only if every shape-breaking swap carries the K1 signature"]
 HEADLINE = ["runs", "accepted_swaps", "proposals", "sig_K1", "sig_ideal", "sig_other", "shape_fail_K1", "shape_ok_swaps", "self_loop_corner_proposals",
-            "default_limit_runs", "reused_object_runs", "list_annotation_runs", "rewire_again_after_in_place_edit_of_the_network", "runs_with_isolated_vertices", "adopted_working_graphs", "stopped_runs", "drawset_invariant_evals", "input_events", "created_edges"]
+            "default_limit_runs", "reused_object_runs", "list_annotation_runs", "rewire_again_after_in_place_edit_of_the_network", "rewire_calls_aborted_by_injected_fault", "runs_with_isolated_vertices", "adopted_working_graphs", "stopped_runs", "drawset_invariant_evals", "input_events", "created_edges"]
 REQUIRED = {"quick": {"accepted_swaps": 2000, "self_loop_corner_proposals": 20, "default_limit_runs": 5, "hooks_installed": 100, "two_name_runs": 3, "runs_with_isolated_vertices": 10},
             "thorough": {"accepted_swaps": 100000, "self_loop_corner_proposals": 500, "default_limit_runs": 100, "hooks_installed": 1000, "two_name_runs": 50, "runs_with_isolated_vertices": 100}}
 SHARD_TIMEOUT = {"quick": 900, "thorough": 14400}
@@ -298,6 +298,27 @@ def run_case(case):
                               reuse=mon.obj, retarget="nothing")
             fold_monitor(res, mon1, base1)
             mon.accepted += mon1.accepted
+    if res.verdict == "held" and mon.returned and rng.random() < 0.2:
+        # injected fault: a rewire() that dies in the middle of the chain (an exception raised at its n-th random draw - a failpoint
+        # at an existing call site) and is caught by the caller; the same rewiring object is then used again and must behave like a
+        # fresh one
+        t0 = RandomTap(seed=case["seed"] + 5, keep_log=False)
+        t0.fail_at = rng.choice([1, 2, 3, 10, 50, 200, 1000, 3000])
+        st = "completed"
+        with installed(t0, "mcmc", "drawset"):
+            try:
+                mon.obj.rewire()
+            except InjectedFault:
+                st = "aborted"
+            except Exception:
+                st = "raised"
+        del G.events[:]
+        res.count("rewire_calls_aborted_by_injected_fault" if st == "aborted" else "fault_injection_runs_not_aborted")
+        base3 = dict(base, history=["rewire()", "rewire() aborted by an exception injected at a random draw" if st == "aborted" else "rewire() (%s)" % st, "rewire()"])
+        mon3 = run_rewire(res, G, names, T, extra, seed=case["seed"] + 9, ctx=base3, cap=60000 if quick else None, stall=15000 if quick else 100000,
+                          reuse=mon.obj, retarget="nothing")
+        fold_monitor(res, mon3, base3)
+        mon.accepted += mon3.accepted
     if res.verdict == "held" and rng.random() < 0.3:
         # history: the same rewiring object is pointed at another network / target and run again
         fam2 = rng.choice(list(FAMILIES))
